@@ -187,11 +187,24 @@ func (st *taintState) callerDischarge(s Sink, depth int) (bool, string) {
 			if hasFactLiteralAny(fs, "!eq(", "GetByIndex(", ","+op+")#1,nil)") {
 				lower, upper = true, true
 			}
-			if s.Kind == "index" && strings.HasPrefix(s.Operand, "(") {
-				// derived expression such as (i / 64): the bounds of i carry over
-				inner := argText
-				lower = lower || HasFact(fs, "le(0,"+inner+")")
-				upper = upper || HasFact(fs, "lt("+inner+",*)") || HasFact(fs, "le("+inner+",*)")
+			if strings.HasPrefix(op, "(") {
+				// derived expression such as (i / 64) or ((bits + 63) / 64): bounds of the
+				// underlying variable carry over (monotone arithmetic with constants)
+				inner := op
+				for {
+					m := derivedRe.FindStringSubmatch(inner)
+					if m == nil {
+						break
+					}
+					inner = m[1]
+				}
+				if inner != op {
+					lower = lower || HasFact(fs, "le(0,"+inner+")") || HasFact(fs, "lt(0,"+inner+")")
+					upper = upper || HasFact(fs, "lt("+inner+",*)") || HasFact(fs, "le("+inner+",*)")
+					if hasFactLiteralAny(fs, "!eq(", "GetByIndex(", ","+inner+")#1,nil)") {
+						lower, upper = true, true
+					}
+				}
 			}
 			ok = lower && upper
 		}
@@ -214,6 +227,9 @@ func substRoot(operand, param, arg string) string {
 }
 
 var rootRes = map[string]*regexp.Regexp{}
+
+// derivedRe matches "(A op const)" and captures A.
+var derivedRe = regexp.MustCompile(`^\((.+) [/%+\-] \d+\)$`)
 
 // rootRe matches the parameter name as a whole identifier at the root of an access path.
 func rootRe(name string) *regexp.Regexp {
